@@ -51,25 +51,77 @@ def canonicalise(tree: ast.AST) -> None:
                         i += 2
                         continue
                     i += 1
-    # for x in [y for y in S if C(y)]: BODY   ->   for x in S: if C(x): BODY
-    # (a filter written into the iterable; the element is the bare variable, one generator)
+    # if C: raise AssertionError[(msg)]   ->   assert not C[, msg]      (`A or B` gives one assert per operand)
     for node in ast.walk(tree):
-        if isinstance(node, ast.For) and isinstance(node.iter, (ast.ListComp, ast.GeneratorExp)) and len(node.iter.generators) == 1 and isinstance(node.target, ast.Name) and not node.orelse:
-            g_ = node.iter.generators[0]
-            if isinstance(g_.target, ast.Name) and isinstance(node.iter.elt, ast.Name) and node.iter.elt.id == g_.target.id and g_.ifs and not g_.is_async:
-                old_, new_ = g_.target.id, node.target.id
-                conds = []
-                for c_ in g_.ifs:
-                    c2 = copy.deepcopy(c_)
-                    for n_ in ast.walk(c2):
-                        if isinstance(n_, ast.Name) and n_.id == old_:
-                            n_.id = new_
-                    conds.append(c2)
-                test = conds[0] if len(conds) == 1 else ast.BoolOp(op=ast.And(), values=conds)
-                inner = ast.copy_location(ast.If(test=test, body=node.body, orelse=[]), node)
-                node.iter = g_.iter
-                node.body = [inner]
-                ast.fix_missing_locations(node)
+        for fld in ("body", "orelse", "finalbody"):
+            seq = getattr(node, fld, None)
+            if not (isinstance(seq, list) and seq and isinstance(seq[0], ast.stmt)):
+                continue
+            i = 0
+            while i < len(seq):
+                st = seq[i]
+                if isinstance(st, ast.If) and not st.orelse and len(st.body) == 1 and isinstance(st.body[0], ast.Raise) and st.body[0].cause is None and st.body[0].exc is not None:
+                    exc = st.body[0].exc
+                    cls_ = exc.func if isinstance(exc, ast.Call) else exc
+                    if isinstance(cls_, ast.Name) and cls_.id == "AssertionError" and (not isinstance(exc, ast.Call) or (len(exc.args) <= 1 and not exc.keywords)):
+                        msg = exc.args[0] if isinstance(exc, ast.Call) and exc.args else None
+                        parts = st.test.values if isinstance(st.test, ast.BoolOp) and isinstance(st.test.op, ast.Or) else [st.test]
+                        new_ = []
+                        for t_ in parts:
+                            a_ = ast.copy_location(ast.Assert(test=ast.UnaryOp(op=ast.Not(), operand=t_), msg=msg), st)
+                            ast.fix_missing_locations(a_)
+                            new_.append(a_)
+                        seq[i:i + 1] = new_
+                        i += len(new_)
+                        continue
+                i += 1
+    # try: X = D[K] (or: return D[K]) except KeyError: A else: B   ->   if K in D: X = D[K]; B else: A
+    # (the one subscript is the only thing the try protects; D a name / attribute chain, no `as` name used)
+    for node in ast.walk(tree):
+        for fld in ("body", "orelse", "finalbody"):
+            seq = getattr(node, fld, None)
+            if not (isinstance(seq, list) and seq and isinstance(seq[0], ast.stmt)):
+                continue
+            for i, st in enumerate(seq):
+                if not (isinstance(st, ast.Try) and len(st.body) == 1 and len(st.handlers) == 1 and not st.finalbody):
+                    continue
+                h_ = st.handlers[0]
+                if not (isinstance(h_.type, ast.Name) and h_.type.id == "KeyError"):
+                    continue
+                if h_.name and any(isinstance(x, ast.Name) and x.id == h_.name for b_ in h_.body for x in ast.walk(b_)):
+                    continue
+                b0 = st.body[0]
+                val = b0.value if isinstance(b0, (ast.Assign, ast.Return, ast.Expr)) else None
+                if isinstance(b0, ast.Assign) and not (len(b0.targets) == 1 and isinstance(b0.targets[0], ast.Name)):
+                    continue
+                if not (isinstance(val, ast.Subscript) and isinstance(val.value, (ast.Name, ast.Attribute)) and isinstance(val.slice, (ast.Name, ast.Attribute, ast.Constant))):
+                    continue
+                test = ast.Compare(left=copy.deepcopy(val.slice), ops=[ast.In()], comparators=[copy.deepcopy(val.value)])
+                hb = [x for x in h_.body if not isinstance(x, ast.Pass)]
+                new_if = ast.copy_location(ast.If(test=test, body=[b0] + list(st.orelse), orelse=hb), st)
+                ast.fix_missing_locations(new_if)
+                seq[i] = new_if
+    # it = <iterable expression>; for x in it: ..   ->   for x in <iterable expression>: ..
+    # (a local bound once, read once, as the iterable of the statement that follows)
+    for fn_ in ast.walk(tree):
+        if not isinstance(fn_, (ast.FunctionDef, ast.AsyncFunctionDef)):
+            continue
+        for node in ast.walk(fn_):
+            for fld in ("body", "orelse", "finalbody"):
+                seq = getattr(node, fld, None)
+                if not (isinstance(seq, list) and seq and isinstance(seq[0], ast.stmt)):
+                    continue
+                i = 0
+                while i + 1 < len(seq):
+                    st, nx = seq[i], seq[i + 1]
+                    if isinstance(st, ast.Assign) and len(st.targets) == 1 and isinstance(st.targets[0], ast.Name) and isinstance(nx, ast.For) and isinstance(nx.iter, ast.Name) and nx.iter.id == st.targets[0].id and isinstance(st.value, (ast.Call, ast.GeneratorExp, ast.ListComp)):
+                        nm_ = st.targets[0].id
+                        uses_ = [x for x in ast.walk(fn_) if isinstance(x, ast.Name) and x.id == nm_]
+                        if len(uses_) == 2:
+                            nx.iter = st.value
+                            del seq[i]
+                            continue
+                    i += 1
     # chain.from_iterable(E for x in IT)   ->   (v for x in IT for v in E)
     for node in ast.walk(tree):
         for fld, val in ast.iter_fields(node):
@@ -88,6 +140,67 @@ def canonicalise(tree: ast.AST) -> None:
                         val[j_] = new_
                     else:
                         setattr(node, fld, new_)
+    # for x in [E for a in A if C for b in B ..]: BODY   ->   for a in A: if C: for b in B: x = E; BODY
+    # (BODY does not leave the loop with its own `break`, no else clause; when E is the innermost variable the
+    # innermost loop binds x directly)
+    def _own_break(stmts) -> bool:
+        for s_ in stmts:
+            if isinstance(s_, ast.Break):
+                return True
+            if isinstance(s_, (ast.For, ast.While, ast.FunctionDef, ast.AsyncFunctionDef, ast.ClassDef)):
+                continue
+            for f2 in ("body", "orelse", "finalbody", "handlers"):
+                sub_ = getattr(s_, f2, None)
+                if isinstance(sub_, list):
+                    inner_ = []
+                    for z_ in sub_:
+                        inner_ += z_.body if isinstance(z_, ast.ExceptHandler) else [z_]
+                    if _own_break(inner_):
+                        return True
+        return False
+
+    for node in list(ast.walk(tree)):
+        if isinstance(node, ast.For) and isinstance(node.iter, (ast.ListComp, ast.GeneratorExp)) and not node.orelse and not any(g_.is_async for g_ in node.iter.generators) and not _own_break(node.body):
+            comp_ = node.iter
+            gens_ = comp_.generators
+            last_ = gens_[-1]
+            direct = isinstance(node.target, ast.Name) and isinstance(comp_.elt, ast.Name) and isinstance(last_.target, ast.Name) and comp_.elt.id == last_.target.id
+            if len(gens_) == 1 and not last_.ifs and not direct:
+                continue  # a plain map: nothing gained
+            body_ = list(node.body)
+            ren_ = {}
+            if direct:
+                ren_ = {last_.target.id: node.target.id}
+            else:
+                asg_ = ast.Assign(targets=[copy.deepcopy(node.target)], value=comp_.elt, lineno=node.lineno)
+                body_ = [asg_] + body_
+
+            def _rn(e_):
+                e2 = copy.deepcopy(e_)
+                for n_ in ast.walk(e2):
+                    if isinstance(n_, ast.Name) and n_.id in ren_:
+                        n_.id = ren_[n_.id]
+                return e2
+
+            for gi_ in range(len(gens_) - 1, -1, -1):
+                g_ = gens_[gi_]
+                if g_.ifs:
+                    conds = [_rn(c_) for c_ in g_.ifs]
+                    body_ = [ast.If(test=conds[0] if len(conds) == 1 else ast.BoolOp(op=ast.And(), values=conds), body=body_, orelse=[])]
+                tg_ = _rn(g_.target)
+                for n_ in ast.walk(tg_):
+                    if hasattr(n_, "ctx"):
+                        n_.ctx = ast.Store()
+                if gi_ == 0:
+                    node.target = tg_
+                    node.iter = _rn(g_.iter) if gi_ != len(gens_) - 1 else g_.iter
+                    node.body = body_
+                else:
+                    body_ = [ast.For(target=tg_, iter=_rn(g_.iter) if gi_ != len(gens_) - 1 else g_.iter, body=body_, orelse=[])]
+            for x_ in ast.walk(node):
+                if not hasattr(x_, "lineno") and isinstance(x_, (ast.stmt, ast.expr)):
+                    ast.copy_location(x_, node)
+            ast.fix_missing_locations(node)
     # S.difference_update(<comprehension>) / S.update(<comprehension>) / L.extend(<comprehension>) as statements
     #   ->   for ..: [if ..:] S.discard(e) / S.add(e) / L.append(e)        (the comprehension does not read S)
     _bulk = {"difference_update": "discard", "update": "add", "extend": "append"}
@@ -263,6 +376,38 @@ def canonicalise(tree: ast.AST) -> None:
                     b_ = ast.copy_location(ast.Assign(targets=[copy.deepcopy(st.targets[0])], value=st.value.orelse, lineno=st.lineno), st)
                     seq[i] = ast.copy_location(ast.If(test=st.value.test, body=[a_], orelse=[b_]), st)
                     ast.fix_missing_locations(seq[i])
+    # p = X.index(y); if C: X.pop(p) else: X[p] = v    ->   if C: X.pop(X.index(y)) else: X[X.index(y)] = v
+    # (the position is computed right before the if-statement that holds all its uses, one per arm)
+    for fn_ in ast.walk(tree):
+        if not isinstance(fn_, (ast.FunctionDef, ast.AsyncFunctionDef)):
+            continue
+        for node in ast.walk(fn_):
+            for fld in ("body", "orelse", "finalbody"):
+                seq = getattr(node, fld, None)
+                if not (isinstance(seq, list) and seq and isinstance(seq[0], ast.stmt)):
+                    continue
+                i = 0
+                while i + 1 < len(seq):
+                    st, nx = seq[i], seq[i + 1]
+                    if isinstance(st, ast.Assign) and len(st.targets) == 1 and isinstance(st.targets[0], ast.Name) and isinstance(st.value, ast.Call) and isinstance(st.value.func, ast.Attribute) and st.value.func.attr == "index" and len(st.value.args) == 1 and isinstance(nx, ast.If):
+                        nm_ = st.targets[0].id
+                        all_ = [x for x in ast.walk(fn_) if isinstance(x, ast.Name) and x.id == nm_]
+                        in_if = [x for x in ast.walk(nx) if isinstance(x, ast.Name) and x.id == nm_ and isinstance(x.ctx, ast.Load)]
+                        per_arm = [sum(1 for z in ast.walk(ast.Module(arm, [])) if isinstance(z, ast.Name) and z.id == nm_) for arm in (nx.body, nx.orelse)]
+                        in_test = any(isinstance(z, ast.Name) and z.id == nm_ for z in ast.walk(nx.test))
+                        if len(all_) == 1 + len(in_if) and in_if and max(per_arm) <= 1 and not in_test:
+                            for par_ in ast.walk(nx):
+                                for f2, v2 in ast.iter_fields(par_):
+                                    if isinstance(v2, ast.Name) and v2.id == nm_ and isinstance(v2.ctx, ast.Load):
+                                        setattr(par_, f2, copy.deepcopy(st.value))
+                                    elif isinstance(v2, list):
+                                        for j_, x_ in enumerate(v2):
+                                            if isinstance(x_, ast.Name) and x_.id == nm_ and isinstance(x_.ctx, ast.Load):
+                                                v2[j_] = copy.deepcopy(st.value)
+                            ast.fix_missing_locations(nx)
+                            del seq[i]
+                            continue
+                    i += 1
     # X.pop(X.index(y)) as a statement is X.remove(y)
     for node in ast.walk(tree):
         if isinstance(node, ast.Expr) and isinstance(node.value, ast.Call) and isinstance(node.value.func, ast.Attribute) and node.value.func.attr == "pop" and len(node.value.args) == 1:
@@ -914,6 +1059,25 @@ def _simplify_not(e: ast.UnaryOp) -> ast.AST:
             return ast.copy_location(ast.Compare(left=inner.left, ops=[_NEG[op]()], comparators=inner.comparators), e)
         if op in _POS:
             return ast.copy_location(ast.Compare(left=inner.left, ops=[_POS[op]()], comparators=inner.comparators), e)
+        # a total order (lengths, integer constants): not (a <= b) is b < a - written with `<` / `<=`
+        def _int_like(x):
+            return (isinstance(x, ast.Call) and isinstance(x.func, ast.Name) and x.func.id == "len") or (isinstance(x, ast.Constant) and isinstance(x.value, int) and not isinstance(x.value, bool))
+        l_, r_ = inner.left, inner.comparators[0]
+        if op in (ast.Lt, ast.LtE, ast.Gt, ast.GtE) and _int_like(l_) and _int_like(r_):
+            # not (l < r) = r <= l ; not (l <= r) = r < l ; not (l > r) = l <= r ; not (l >= r) = l < r
+            if op is ast.Lt:
+                new_ = ast.Compare(left=r_, ops=[ast.LtE()], comparators=[l_])
+            elif op is ast.LtE:
+                new_ = ast.Compare(left=r_, ops=[ast.Lt()], comparators=[l_])
+            elif op is ast.Gt:
+                new_ = ast.Compare(left=l_, ops=[ast.LtE()], comparators=[r_])
+            else:
+                new_ = ast.Compare(left=l_, ops=[ast.Lt()], comparators=[r_])
+            if isinstance(new_.left, ast.Constant) and not isinstance(new_.comparators[0], ast.Constant):
+                # constant on the right
+                flip = {ast.Lt: ast.Gt, ast.LtE: ast.GtE}
+                new_ = ast.Compare(left=new_.comparators[0], ops=[flip[type(new_.ops[0])]()], comparators=[new_.left])
+            return ast.copy_location(new_, e)
     if not neg:
         return inner
     if inner is e.operand:
